@@ -105,16 +105,42 @@ def cmdfiles(run, p, fc):
         for x in p.own_nodes(f):
             if isinstance(x, ast.Call) and isinstance(x.func, ast.Attribute) and x.func.attr == 'write_file' and x.args:
                 written |= names_in(x.args[0])
+        # plain copies x = y: a path may be computed (and written) under one name and handed on under another
+        copy_of = {}
+        direct = {}
+        for st in p.own_nodes(f):
+            if isinstance(st, ast.Assign) and len(st.targets) == 1 and isinstance(st.targets[0], ast.Name):
+                if isinstance(st.value, ast.Name):
+                    copy_of.setdefault(st.targets[0].id, set()).add(st.value.id)
+                else:
+                    direct.setdefault(st.targets[0].id, []).append(st.value)
+
+        def sources(y, seen=None):
+            """-> [(leaf name, names on the copy chain from the leaf to y)]"""
+            seen = seen or (y,)
+            out = []
+            if y in direct or y in f.params or y not in copy_of:
+                out.append((y, set(seen)))
+            for z in sorted(copy_of.get(y, ())):
+                if z not in seen:
+                    out += sources(z, seen + (z,))
+            return out
         for x in p.own_nodes(f):
             if isinstance(x, ast.Call) and isinstance(x.func, ast.Attribute) and x.func.attr == 'compare_with':
                 for i, a in enumerate(x.args[:2]):
                     n += 1
                     nm = names_in(a)
                     # a path built under self.tmp_dir must have been written here; anything else must be a caller path
-                    tmp_paths = [y for y in nm if 'self.tmp_dir' in dep_closure(f.node, {y})]
-                    others = [y for y in nm if y not in tmp_paths]
-                    ok = bool(nm) and all(y in written for y in tmp_paths) and \
-                        all((y in f.params) or (dep_closure(f.node, {y}) & (set(f.params) - {'self'})) for y in others)
+                    ok = bool(nm)
+                    for y in nm:
+                        for leaf, chain in sources(y):
+                            builds_tmp = any('self.tmp_dir' in names_in(v) or 'self.tmp_dir' in dep_closure(f.node, names_in(v) - {leaf}) for v in direct.get(leaf, []))
+                            if builds_tmp:
+                                ok = ok and bool(chain & written)
+                            elif leaf in direct and leaf not in f.params:
+                                ok = ok and bool(dep_closure(f.node, {leaf}) & (set(f.params) - {'self'}))
+                            else:
+                                ok = ok and (leaf in f.params or bool(dep_closure(f.node, {leaf}) & (set(f.params) - {'self'})))
                     run.ob('C15-CMDFILES', '%s::%s::%s#%d' % (f.rel, f.short, norm(x)[:50], i), ok,
                            'command argument %s is %s' % (ast.unparse(a), 'a caller path or a file written here' if ok
                                                          else 'neither a caller path nor written by write_file'),
